@@ -27,7 +27,7 @@ impl JsonCfg {
             p_escape: *rng.pick(&[0, 100, 400]),
             p_shuffle_keys: *rng.pick(&[0, 300, 1000]),
             exotic: true,
-            big: if rng.chance(1, 40) { Some(*rng.pick(&[127usize, 128, 129, 255, 256, 257, 300, 1023, 1024, 1025, 4097, 65535, 65537])) } else { None },
+            big: if rng.chance(1, 40) { Some(*rng.pick(&[127usize, 128, 129, 255, 256, 257, 300, 1023, 1024, 1025, 4097, 4099, 8191, 65535, 65537])) } else { None },
         }
     }
 }
@@ -39,6 +39,12 @@ pub struct JEmitter<'r> {
 }
 
 const NONASCII: &[&str] = &["é", "ü", "€", "Ω", "中", "𝄞", "😀", "ß"];
+
+/// strings that look like Zinc / Hayson syntax: sigils doubled, keywords, literals of other kinds
+const TRICKY_TEXT: &[&str] = &[
+    "^^site", "^site", "^", "@ref", "@@r", "@", "`u`", "``", "N", "M", "T", "F", "NA", "R", "INF", "-INF", "NaN", "2021-01-01", "12:00:00", "2021-01-01T00:00:00Z", "C(1,2)", "Bin(\\\"x\\\")", "{a}", "[1]", "<<", ">>",
+    "1kW", "-1", "ver:\\\"3.0\\\"", "_kind", "null", "true", "n:1", "s:x", "r:abc", "m:", "z:", "x:Bin:y", "u:http", "d:2021-01-01", "h:12:00", "t:2021-01-01T00:00:00Z UTC", "c:1,2",
+];
 
 /// (kind, spelled `val`) at and beyond the edges of the kinds
 const EDGE_JSON: &[(&str, &str)] = &[
@@ -62,6 +68,10 @@ impl<'r> JEmitter<'r> {
     }
 
     fn string_body(&mut self) -> String {
+        if self.cfg.exotic && self.rng.chance(1, 12) {
+            // text that looks like the syntax of some kind (its own or another)
+            return self.rng.pick_str(TRICKY_TEXT).to_string();
+        }
         let mut n = self.rng.range(0, 8);
         if let Some(big) = self.cfg.big {
             if self.rng.chance(1, 3) {
@@ -215,7 +225,7 @@ impl<'r> JEmitter<'r> {
                 self.object(m)
             }
             8 => {
-                let v = self.id();
+                let v = if self.cfg.exotic && self.rng.chance(1, 6) { self.rng.pick_str(TRICKY_TEXT).to_string() } else { self.id() };
                 let mut m = vec![("_kind".to_string(), "\"ref\"".to_string()), ("val".into(), self.quoted(&v))];
                 if self.rng.chance(1, 2) {
                     let d = self.sub(|e| e.string());
@@ -224,7 +234,7 @@ impl<'r> JEmitter<'r> {
                 self.object(m)
             }
             9 => {
-                let v = self.id();
+                let v = if self.cfg.exotic && self.rng.chance(1, 6) { self.rng.pick_str(TRICKY_TEXT).to_string() } else { self.id() };
                 let v = self.quoted(&v);
                 self.object(vec![("_kind".into(), "\"symbol\"".into()), ("val".into(), v)])
             }
@@ -343,8 +353,8 @@ impl<'r> JEmitter<'r> {
         let mut nrows = self.rng.range(0, 4);
         let mut ncols = ncols;
         if let Some(big) = self.cfg.big {
-            if big <= 1025 && self.rng.chance(1, 3) {
-                if self.rng.chance(1, 2) {
+            if big <= 8191 && self.rng.chance(1, 3) {
+                if big <= 1025 && self.rng.chance(1, 2) {
                     ncols = big;
                 } else {
                     nrows = big;
